@@ -160,8 +160,8 @@ impl AluOutput {
             }
             AluSelect::RR => {
                 let carry_out = (a & 0b0000_0001) != 0;
-                let (o, c) = a.overflowing_shr(1);
-                (o | (c as u8) << 7, carry_out)
+                let (o, _) = a.overflowing_shr(1);
+                (o | (a & 0b0000_0001) << 7, carry_out)
             }
             AluSelect::RRC => {
                 let carry_out = (a & 0b0000_0001) != 0;
